@@ -46,8 +46,14 @@ class CallGraph:
         self.methods_by_name: dict[str, list[str]] = defaultdict(list)
         for full, m in self.modnames.items():
             self._collect_defs(tf.res.graph[full].tree.defs, m, m, None)
+        self.var_lambdas: dict[str, set[str]] = defaultdict(set)
+        self.var_refs: list[tuple[str, str]] = []
+        self._lvalue_ids: set[int] = set()
         for full, m in self.modnames.items():
             self._scan_block(tf.res.graph[full].tree.defs, f'{m}.<module>', m, None)
+        for owner, full in self.var_refs:
+            for q in self.var_lambdas.get(full, ()):
+                self.edges[owner].add(q)
 
     # ---- definitions -----------------------------------------------------------------------------
     def _collect_defs(self, defs, prefix, mod, cls):
@@ -148,6 +154,28 @@ class CallGraph:
             if isinstance(x, n.ClassDef) and x is not st:
                 self._scan_block([x], owner, mod, cls)
                 continue
+            if isinstance(x, n.LambdaExpr):
+                # a lambda body runs when the lambda is called, not where it is written.  A lambda stored in a module- or
+                # class-level variable is reachable from whoever references that variable; any other lambda is taken to be
+                # called by the code that creates it.
+                q = f'{mod}.<lambda:{x.line}:{x.column}>'
+                self.funcs.setdefault(q, None)
+                self.mod_of.setdefault(q, mod)
+                holder = None
+                if owner.endswith('>') and isinstance(st, n.AssignmentStmt) and all(isinstance(lv, n.NameExpr) for lv in st.lvalues):
+                    holder = [lv for lv in st.lvalues]
+                if holder:
+                    for lv in holder:
+                        self.var_lambdas[lv.fullname or f'{mod}.{lv.name}'].add(q)
+                        self._lvalue_ids.add(id(lv))
+                else:
+                    self._edge(owner, q)
+                for a in x.arguments:
+                    if a.initializer is not None:
+                        self._scan_expr(a.initializer, owner, mod, cls)
+                for b in x.body.body:
+                    self._scan_stmt(b, q, mod, cls)
+                continue
             if isinstance(x, n.Expression):
                 self._visit_expr(x, owner, mod, cls)
             for name in self.tf._kids(type(x)):
@@ -221,6 +249,8 @@ class CallGraph:
             self.calls_in[owner].append(x)
         if isinstance(x, n.NameExpr):
             nd = x.node
+            if isinstance(nd, n.Var) and id(x) not in self._lvalue_ids and getattr(nd, 'fullname', None):
+                self.var_refs.append((owner, nd.fullname))
             if isinstance(nd, (n.FuncDef, n.Decorator, n.OverloadedFuncDef)) and nd.fullname:
                 self._add(owner, nd.fullname)
             elif isinstance(nd, n.TypeInfo):
@@ -246,6 +276,7 @@ class CallGraph:
             # module attribute: alias.f
             if isinstance(x.expr, n.NameExpr) and isinstance(x.expr.node, n.MypyFile):
                 full = f'{x.expr.node.fullname}.{x.name}'
+                self.var_refs.append((owner, full))
                 s = short(full)
                 if s:
                     modq = self.modnames.get(x.expr.node.fullname)
